@@ -208,7 +208,7 @@ namespace GeographicLib {
   }
 
   AuxAngle AuxLatitude::Authalic(const AuxAngle& phi, real* diff) const {
-    using std::isnan;           // Needed for Centos 7, ubuntu 14
+    using std::isinf;           // Needed for Centos 7, ubuntu 14
     real tphi = fabs(phi.tan());
     AuxAngle xi(phi), phin(phi.normalized());
     if ( !( !isfinite(tphi) || tphi == 0 || _f == 0 ) ) {
@@ -218,7 +218,7 @@ namespace GeographicLib {
       xi = AuxAngle( copysign(qv, phi.y()), phin.x() * sqrt(Dqp * Dqm) );
     }
     if (diff) {
-      if (!isnan(tphi)) {
+      if (!isinf(tphi)) {
         real cbeta = Parametric(phi).normalized().x(),
           cxi = xi.normalized().x();
         *diff =
